@@ -198,32 +198,35 @@ theorem peekTypeOf_append (X Y : List Tok) (ty : Nat) (h : peekTypeOf X = some t
         | cons y Y' => simpa [peekTypeOf, hb'] using h
     | cons t2 X2 => simpa [peekTypeOf] using h
 
-def NoChainKw (t : Tok) : Prop :=
-  isIdent t kwInputclass = false ∧ isIdent t kwBacktrackclass = false ∧ isIdent t kwLookaheadclass = false
+/-- the stream does not start with a class definition of the chained forms -/
+def KwFree (X : List Tok) : Prop :=
+  kwNoOf kwInputclass X ∧ kwNoOf kwBacktrackclass X ∧ kwNoOf kwLookaheadclass X
+
+theorem kwFree_head (X : List Tok) (t : Tok) (h : X.head? = some t) (ht : t.typ ≠ tIdentifier) : KwFree X := by
+  have hi : ∀ kw, isIdent t kw = false := by intro kw; simp [isIdent, ht]
+  exact ⟨kwNoOf_head _ X t h (hi _), kwNoOf_head _ X t h (hi _), kwNoOf_head _ X t h (hi _)⟩
+
+theorem kwFree_append (X Y : List Tok) (h : KwFree X) : KwFree (X ++ Y) :=
+  ⟨kwNoOf_append _ X Y h.1, kwNoOf_append _ X Y h.2.1, kwNoOf_append _ X Y h.2.2⟩
 
 /-- a subtable without (further) class definitions at the head of the chained loop -/
 theorem chain_unit (f : Font) (fuel n : Nat) (st : ChSt) (acc : List Subtable) (ps TAIL : List Piece) (ty : Nat)
     (sub : Subtable) (y : List Subtable) (P : Tok → Prop) (N : Option Nat → Prop)
-    (hkw : ∀ line, ∃ t, (mkToks line ps).head? = some t ∧ NoChainKw t)
+    (hkw : ∀ line, KwFree (mkToks line ps))
     (hty : ∀ line, peekTypeOf (mkToks line ps) = some ty)
     (hbr : Frag (chainBranch f fuel st ty) ps (sub, ChSt.empty) SubStop Safe)
     (hcont : Frag (chainCont f fuel n acc (sub, ChSt.empty)) TAIL y P N)
     (hN : ∀ nx, N nx → Safe (nextRune TAIL nx))
     (hP : ∀ line t, P t → SubStop ((mkToks line TAIL).head?.getD t)) :
     Frag (chainLoop f fuel (n + 1) st acc) (ps ++ TAIL) y P N := by
-  have hhead : ∀ line, ∃ t, (mkToks line (ps ++ TAIL)).head? = some t ∧ NoChainKw t := by
-    intro line
-    obtain ⟨t, h1, h2⟩ := hkw line
-    exact ⟨t, mkToks_head_append line _ _ t h1, h2⟩
+  have hfree : ∀ line, KwFree (mkToks line (ps ++ TAIL)) := by
+    intro line; rw [mkToks_append]; exact kwFree_append _ _ (hkw line)
   rw [chainLoop_succ]
-  refine frag_bind0 (frag_optKeyword_no kwInputclass) ?_ (fun _ _ => trivial) (fun line t _ => by
-    obtain ⟨u, h1, h2⟩ := hhead line; rw [h1]; exact h2.1)
+  refine frag_optKeyword_no_then kwInputclass _ _ _ _ _ (fun line => (hfree line).1) ?_
   simp only [Bool.false_eq_true, if_false]
-  refine frag_bind0 (frag_optKeyword_no kwBacktrackclass) ?_ (fun _ _ => trivial) (fun line t _ => by
-    obtain ⟨u, h1, h2⟩ := hhead line; rw [h1]; exact h2.2.1)
+  refine frag_optKeyword_no_then kwBacktrackclass _ _ _ _ _ (fun line => (hfree line).2.1) ?_
   simp only [Bool.false_eq_true, if_false]
-  refine frag_bind0 (frag_optKeyword_no kwLookaheadclass) ?_ (fun _ _ => trivial) (fun line t _ => by
-    obtain ⟨u, h1, h2⟩ := hhead line; rw [h1]; exact h2.2.2)
+  refine frag_optKeyword_no_then kwLookaheadclass _ _ _ _ _ (fun line => (hfree line).2.2) ?_
   simp only [Bool.false_eq_true, if_false]
   refine frag_peekType2_then _ _ _ _ _ ty (fun line => by
     rw [mkToks_append]; exact peekTypeOf_append _ _ ty (hty line)) ?_
